@@ -16,6 +16,7 @@ import (
 	"errors"
 	"flag"
 	"fmt"
+	"hash/fnv"
 	"math"
 	"os"
 	"path/filepath"
@@ -200,6 +201,8 @@ type persistStats struct {
 	LDRanges       int            `json:"letter_or_digit_ranges"`
 	UpperPairs     int            `json:"upper_pairs"`
 	Samples        []string       `json:"samples"`
+	Distinct       int            `json:"distinct_nontrivial"`
+	Hashes         []string       `json:"hashes"` // FNV-64 of every distinct non-trivial case (id removed), for cross-shard counting
 }
 
 type persistFail struct {
@@ -217,9 +220,27 @@ type persistGen struct {
 	dir   string // scratch directory
 	first bool
 	seed  uint64
+	seen  map[uint64]bool
 }
 
-func (g *persistGen) emit(class, term string) {
+// emit adds a case; nontrivial says whether its input is non-empty (the rule for distinct_nontrivial)
+func (g *persistGen) emit(class, term string, nontrivial bool) {
+	if nontrivial {
+		// the id is the first number of the term: drop it before hashing
+		body := term
+		if i := strings.IndexByte(term, ' '); i >= 0 {
+			if j := strings.IndexByte(term[i+1:], ' '); j >= 0 {
+				body = term[:i] + term[i+1+j:]
+			}
+		}
+		h := fnv.New64a()
+		h.Write([]byte(body))
+		if k := h.Sum64(); !g.seen[k] {
+			g.seen[k] = true
+			g.st.Distinct++
+			g.st.Hashes = append(g.st.Hashes, strconv.FormatUint(k, 36))
+		}
+	}
 	if !g.first {
 		g.b.WriteString(";\n")
 	}
@@ -408,7 +429,7 @@ func (g *persistGen) saveCase(class string, ver string, out []byte, seed uint64,
 			fmt.Sprintf("/verif/build/harness persist-roundtrip -version %q -seed %d -words %d -outlen %d -maxline %d", ver, seed, len(ws), len(out), maxLineLen(out))})
 	}
 	g.emit(class, fmt.Sprintf("CSave %d %s %s %d %s\n    %s %s", id, persistBexp([]byte(ver)), persistBexp(out), seed, persistNList(ws),
-		persistBexp(file), persistLres(v2, s2, w2, lerr)))
+		persistBexp(file), persistLres(v2, s2, w2, lerr)), len(out)+len(ws) > 0)
 }
 
 func (g *persistGen) loadCaseExpr(class string, content []byte, expr string) {
@@ -425,7 +446,7 @@ func (g *persistGen) loadCaseExpr(class string, content []byte, expr string) {
 		g.st.LoadResults["ok"]++
 	}
 	g.st.TotalBytes += len(content)
-	g.emit(class, fmt.Sprintf("CLoad %d %s %s", id, expr, persistLres(v, s, w, err)))
+	g.emit(class, fmt.Sprintf("CLoad %d %s %s", id, expr, persistLres(v, s, w, err)), len(content) > 0)
 }
 
 func (g *persistGen) loadCase(class string, content []byte) {
@@ -495,7 +516,7 @@ func (g *persistGen) validFile() []byte {
 }
 
 func (g *persistGen) malformed() {
-	switch g.r.intn(16) {
+	switch g.r.intn(22) {
 	case 0:
 		g.loadCase("load:random-bytes", g.randBytes(g.r.intn(200)))
 	case 1:
@@ -517,8 +538,8 @@ func (g *persistGen) malformed() {
 	case 4:
 		// truncation at every offset of a small valid file
 		base := g.validFile()
-		if len(base) > 90 {
-			base = base[len(base)-90:]
+		if len(base) > 60 {
+			base = base[len(base)-60:]
 		}
 		expr := persistBexp(base)
 		for k := 0; k <= len(base); k++ {
@@ -544,7 +565,7 @@ func (g *persistGen) malformed() {
 			what = "load:lines-swapped"
 		}
 		g.loadCase(what, bytes.Join(mut, nil))
-	case 6, 7:
+	case 6, 7, 16, 17, 18, 19:
 		// number zoo in seed and word position
 		var b []byte
 		b = append(b, "# c\n"...)
@@ -564,7 +585,7 @@ func (g *persistGen) malformed() {
 			}
 		}
 		g.loadCase("load:number-zoo", b)
-	case 8:
+	case 8, 21:
 		g.loadCase("load:fields", []byte(pick(g.r, "v0.4.8", "v0.4.8#", "v0.4.8#1#2", "v0.4.8##1", "#1", "v#1", "v0.4.8#1\n#\n0x1", "a#b#c", "v0.4.8 # 1", "v0.4.8# 1", "v0.4.8 #1",
 			"v0.4.8#1 0x2", "v0.4.8#1\n0x1 0x2", "v0.4.8#1\n\n\n0x1\n\n", "v0.4.8#1\n0x1\n", "v0.4.8#1\n0x1\n\n", "\n\nv0.4.8#1", "x#0", "v0.4.8#0x10", "v0.4.8#010", "v0.4.8#1_0")))
 	case 9:
@@ -580,7 +601,7 @@ func (g *persistGen) malformed() {
 			b = append(append([]byte(nil), base...), '\r')
 		}
 		g.loadCase("load:crlf", b)
-	case 10:
+	case 10, 20:
 		// unicode spaces and near-spaces around tokens
 		var b []byte
 		tok := func(s string) {
@@ -642,7 +663,7 @@ func (g *persistGen) libCase() {
 			}
 		}
 		g.st.ParseResults[fmt.Sprintf("base%d:%s", base, cls)]++
-		g.emit("lib:ParseUint", fmt.Sprintf("CParse %d %d %s %s", g.nextID(), base, persistBexp([]byte(s)), res))
+		g.emit("lib:ParseUint", fmt.Sprintf("CParse %d %d %s %s", g.nextID(), base, persistBexp([]byte(s)), res), len(s) > 0)
 	case 1:
 		var b []byte
 		for i, n := 0, g.r.intn(8); i < n; i++ {
@@ -655,7 +676,7 @@ func (g *persistGen) libCase() {
 				b = append(b, byte('a'+g.r.intn(3)))
 			}
 		}
-		g.emit("lib:TrimSpace", fmt.Sprintf("CTrim %d %s %s", g.nextID(), persistBexp(b), persistBexp([]byte(strings.TrimSpace(string(b))))))
+		g.emit("lib:TrimSpace", fmt.Sprintf("CTrim %d %s %s", g.nextID(), persistBexp(b), persistBexp([]byte(strings.TrimSpace(string(b))))), len(b) > 0)
 	default:
 		var b []byte
 		for i, n := 0, g.r.intn(12); i < n; i++ {
@@ -667,7 +688,7 @@ func (g *persistGen) libCase() {
 		for sc.Scan() {
 			toks = append(toks, persistBexp([]byte(sc.Text())))
 		}
-		g.emit("lib:ScanLines", fmt.Sprintf("CScan %d %s [%s]", g.nextID(), persistBexp(b), strings.Join(toks, "; ")))
+		g.emit("lib:ScanLines", fmt.Sprintf("CScan %d %s [%s]", g.nextID(), persistBexp(b), strings.Join(toks, "; ")), len(b) > 0)
 	}
 }
 
@@ -734,7 +755,7 @@ func (g *persistGen) testName() (string, string) {
 
 func (g *persistGen) nameCases(name, class string) {
 	ksf := rapid.VerifKindaSafeFilename(name)
-	g.emit(class, fmt.Sprintf("CSan %d %s %s", g.nextID(), persistRunes(name), persistRunes(ksf)))
+	g.emit(class, fmt.Sprintf("CSan %d %s %s", g.nextID(), persistRunes(name), persistRunes(ksf)), len(name) > 0)
 
 	dir, file := rapid.VerifFailFileName(name)
 	pattern := rapid.VerifFailFilePattern(name)
@@ -748,7 +769,7 @@ func (g *persistGen) nameCases(name, class string) {
 	}
 	ts, pid := rest[:cut], rest[cut+1:]
 	g.emit("path", fmt.Sprintf("CPath %d %s %s %s\n    %s %s %s", g.nextID(), persistRunes(name), persistRunes(ts), persistRunes(pid),
-		persistRunes(dir), persistRunes(file), persistRunes(pattern)))
+		persistRunes(dir), persistRunes(file), persistRunes(pattern)), len(name) > 0)
 
 	// direct oracle for C06_name / C16_tmp_disjoint on the real functions
 	if ok, err := filepath.Match(pattern, file); err != nil || !ok {
@@ -824,7 +845,7 @@ func (g *persistGen) nameCases(name, class string) {
 	if !sawReal || sawTmp {
 		g.st.NameFails = append(g.st.NameFails, persistFail{g.id, class, fmt.Sprintf("Glob(%q): fail file found=%v, temporary file found=%v", pattern, sawReal, sawTmp), fmt.Sprintf("name=%q", name)})
 	}
-	g.emit("glob", fmt.Sprintf("CGlob %d %s\n    [%s]\n    [%s]", g.nextID(), persistRunes(name), strings.Join(listing, "; "), strings.Join(found, "; ")))
+	g.emit("glob", fmt.Sprintf("CGlob %d %s\n    [%s]\n    [%s]", g.nextID(), persistRunes(name), strings.Join(listing, "; "), strings.Join(found, "; ")), len(name) > 0)
 }
 
 func (g *persistGen) matchCase() {
@@ -854,7 +875,7 @@ func (g *persistGen) matchCase() {
 	if ok {
 		r = "true"
 	}
-	g.emit("lib:Match", fmt.Sprintf("CMatch %d %s %s %s", g.nextID(), persistRunes(pat), persistRunes(name), r))
+	g.emit("lib:Match", fmt.Sprintf("CMatch %d %s %s %s", g.nextID(), persistRunes(pat), persistRunes(name), r), len(pat) > 0)
 }
 
 // ------------------------------------------------------------------------------------------------
@@ -876,7 +897,7 @@ func cmdPersistCases(args []string) {
 		die("%v", err)
 	}
 	defer os.RemoveAll(dir)
-	g := &persistGen{r: &Rng{s: *seed*7919 + 17}, dir: dir, first: true, seed: *seed}
+	g := &persistGen{r: &Rng{s: *seed*7919 + 17}, dir: dir, first: true, seed: *seed, seen: map[uint64]bool{}}
 	g.st = persistStats{Classes: map[string]int{}, LoadResults: map[string]int{}, ParseResults: map[string]int{}, Skipped: map[string]int{}}
 	want := map[string]bool{}
 	for _, c := range strings.Split(*classes, ",") {
